@@ -506,6 +506,32 @@ pub fn byz_rewrite_poplar(bits: usize, ctx: &[u8], nonce: &[u8; 16], meas: &[N],
                 let r = if l == bits - 1 { reprogram::<Field255>(bits, ctx, nonce, public, inputs, on_path, leaf_off, beta, *consistent) } else { reprogram::<Field64>(bits, ctx, nonce, public, inputs, on_path, inner_off + 16 * l, beta, *consistent) };
                 notes.push(r.unwrap_or_else(|| format!("payload rewrite at level {l} did not take")));
             }
+            ByzEdit::GuessR { level, beta, guess } => {
+                let l = *level as usize % bits;
+                let on_path = &input[..l + 1];
+                let leaf = l == bits - 1;
+                let r = if leaf { reprogram::<Field255>(bits, ctx, nonce, public, inputs, on_path, leaf_off, beta, true) } else { reprogram::<Field64>(bits, ctx, nonce, public, inputs, on_path, inner_off + 16 * l, beta, true) };
+                match r {
+                    None => notes.push(format!("payload rewrite at level {l} did not take")),
+                    Some(n) => {
+                        // what the on-path candidate now evaluates to
+                        let done = eval_sum(bits, ctx, nonce, public, inputs, on_path).and_then(|(d, _)| {
+                            if leaf {
+                                let off = 48 + 16 * (bits - 1) + 32;
+                                let b = Field255::get_decoded(&d).ok()?;
+                                let c = small::<Field255>(*guess as u64);
+                                fe_add::<Field255>(&mut inputs[0][off..off + 32], (b * b - b) * c * c, true)
+                            } else {
+                                let off = 48 + 16 * l + 8;
+                                let b = Field64::get_decoded(&d).ok()?;
+                                let c = small::<Field64>(*guess as u64);
+                                fe_add::<Field64>(&mut inputs[0][off..off + 8], (b * b - b) * c * c, true)
+                            }
+                        });
+                        notes.push(format!("{n}; leader's B share of level {l} shifted to cancel the sketch check if the verification randomness were +-{guess}{}", if done.is_none() { " (shift failed)" } else { "" }));
+                    }
+                }
+            }
             ByzEdit::SeedCw { m } => {
                 let mut region = public[..inner_off].to_vec();
                 raw_edit(&mut region, m, false);
